@@ -121,3 +121,22 @@ Ltac skip_cases v :=
 (* the defect repaired by ad98cf9: "v in (None, False)" also skips the number 0 *)
 Example in_none_false_skips_zero : eval_cond (CIn [PNone; PBool false]) (PNum 0) = true.
 Proof. reflexivity. Qed.
+
+(* ---------- how a command writes its result ---------- *)
+(* A command computes the lines with its function (which may raise) and writes them.  With a single
+   write of the whole text, evaluated before anything is written, an error leaves the stream empty. *)
+Inductive wmode := WriteAll | WriteEach.
+Definition mode_of (row : list N * nat * bool) : wmode :=
+  let '(_, n, looped) := row in if Nat.eqb n 1 && negb looped then WriteAll else WriteEach.
+
+(* what is on the result stream when the function yields its lines one by one and fails after k of them *)
+Definition written (m : wmode) (yielded : list (list N)) (fails : bool) : list (list N) :=
+  match m with
+  | WriteAll => if fails then [] else yielded
+  | WriteEach => yielded
+  end.
+
+Lemma write_all_no_partial_result : forall yielded, written WriteAll yielded true = [].
+Proof. reflexivity. Qed.
+Lemma write_each_partial_result : forall l, l <> [] -> written WriteEach l true <> [].
+Proof. intros l H. exact H. Qed.
